@@ -3,7 +3,7 @@ E1/E4: (a) per kind every subset of the optional parameters and every alternativ
 carry current; (b) every tree of the mid alphabet with rails, groups, by-rail attachment, limits and phase configurations; (c) every PMux input tuple
 with every priority permutation; (d) the version gate menu.  Oracle: all reports of S and of from_file(save(S)) are equal (keyed, exact)."""
 import itertools, copy, json, os, shutil
-from ..common import Run, Res, seed, quiet_call, VERIF
+from ..common import workdir as _wd, cleanup_workdir as _cw, Run, Res, seed, quiet_call, VERIF
 from ..sysmodel import (Trees, SIG_MID, spec_from_forest, with_phases, PH2, build, build_holes, LOADS, PHASE_LIST_KINDS, pc_options)
 from ..muxsys import mux_spec, INPUT_OPTS
 from ..reports import all_reports, diff_reports, save_doc
@@ -166,7 +166,7 @@ def replay(doc):
     r = check_case(doc["case"])
     for sig, detail in r.viol[:10]:
         print("  ", sig, detail)
-    shutil.rmtree(os.path.join(VERIF, ".work"), ignore_errors=True)
+    _cw()
     return [s for s, _ in r.viol]
 
 
@@ -175,7 +175,7 @@ def main(tier):
     try:
         run.map(check_case, gen_cases(tier), chunk=8, family="roundtrip")
     finally:
-        shutil.rmtree(os.path.join(VERIF, ".work"), ignore_errors=True)
+        _cw()
     for c in ("kind", "tree", "mux", "edited-system", "version:newer-patch:ValueError", "version:same:loaded"):
         run.require(c in run.classes, "class %s never observed" % c)
     return run.finish(
